@@ -107,3 +107,14 @@ func VerifState(p *Peer, npieces int) VerifPeerState {
 func VerifSetExt(p *Peer, pexExt, metadataExt, dontHaveExt uint32) {
 	p.pexExt, p.metadataExt, p.dontHaveExt = pexExt, metadataExt, dontHaveExt
 }
+
+// VerifFastLink makes the peer look like a fast peer on a long link (high
+// download rate estimate, long round-trip time), so that the request
+// pipeline is bounded by the queue depth the remote advertised and not by
+// the delay bound.
+func VerifFastLink(p *Peer) {
+	p.rtt = 4 * time.Second
+	p.rttvar = time.Second
+	p.download.Start()
+	p.download.Accumulate(256 << 20)
+}
